@@ -128,6 +128,13 @@ static void seq_case(void) {
                     mon_violation("C15:seq:size", "acquire(%zu) returned capacity %zu", req, cap);
                 }
                 MON_CHECK(dest.len == 0, "C15:seq:size", "acquired buffer has len %zu", dest.len);
+                {
+                    uint8_t foreign[4];
+                    struct aws_byte_buf fb = aws_byte_buf_from_empty_array(foreign, sizeof(foreign));
+                    MON_CHECK(aws_ring_buffer_buf_belongs_to_pool(&rb, &dest), "C15:seq:belongs-to-pool", "acquired buffer [%td,+%zu) is reported as not belonging to the ring",
+                              p - rb.allocation, cap);
+                    MON_CHECK(!aws_ring_buffer_buf_belongs_to_pool(&rb, &fb), "C15:seq:belongs-to-pool", "a buffer on the caller's stack is reported as belonging to the ring%s", "");
+                }
                 for (size_t j = tail; j < head; ++j) {
                     if (p < out[j].ptr + out[j].cap && out[j].ptr < p + cap) {
                         mon_violation("C15:seq:overlap",
